@@ -788,7 +788,133 @@ def c16_15(ctx):
     return out
 
 
+def _xpub_standins():
+    """Stand-in extended public keys: the string `<prefix>K<id>`; HDPublicKey.parse accepts exactly the strings listed (anything else is a
+    Base58Check failure, C09's clause), .xpub() renders the key with the prefix its pub_version attribute selects -- the network default
+    once the attribute has been removed, which is how the constructor normalises SLIP-132 spellings."""
+    from sa.cells import Obj, Raised
+    PREFIXES = {"tpub": "testnet", "Vpub": "testnet", "Upub": "testnet", "vpub": "testnet", "upub": "testnet", "xpub": "mainnet", "Zpub": "mainnet"}
+
+    def parse(cls, s=None, *a, **k):
+        if not isinstance(s, str) or len(s) < 6 or s[:4] not in PREFIXES or s[4] != "K" or not s[5:].isalnum():
+            raise Raised("ValueError")
+        return Obj("hd", "HDPublicKey", {"keyid": s[5:], "network": PREFIXES[s[:4]], "pub_version": s[:4], "_raw": None, "trail": ()})
+
+    def init(o, **kw):
+        o.attrs.update(kw)
+
+    def xpub(o, *a, **k):
+        pre = o.attrs.get("pub_version") or ("xpub" if o.attrs.get("network") == "mainnet" else "tpub")
+        return pre + "K" + o.attrs["keyid"] + "".join("c%d" % i for i in o.attrs.get("trail", ()))
+
+    def child(o, index=None, *a, **k):
+        if not isinstance(index, int) or index < 0 or index >= 2 ** 31:
+            raise Raised("ValueError")
+        at = dict(o.attrs)
+        at["trail"] = tuple(at.get("trail", ())) + (index,)
+        return Obj("hd", "HDPublicKey", at)
+    return {("HDPublicKey", "parse"): parse, ("HDPublicKey", "__init__"): init, ("HDPublicKey", "xpub"): xpub, ("HDPublicKey", "child"): child}
+
+
+def c16_16(ctx):
+    """the descriptor text is a function of the set of cosigner keys: P2WSHSortedMulti.__init__ evaluated for 1..3 key records in every order
+    they can be supplied and with every mix of SLIP-132 spellings of the same keys (tpub / Vpub / Upub …) gives one text -- the key records
+    ordered by the normalised xpub that appears in it -- and the Bitcoin Core checksum of that text.  Key parsing is a stand-in"""
+    import itertools
+    from sa.cells import Evaluator, Obj, Raised, Undecided
+    spec = "descriptor:P2WSHSortedMulti.__init__"
+    mod, fn = rl.get(ctx, spec)
+    hooks = _xpub_standins()
+    # key ids chosen so that the order of the raw strings differs from the order of the normalised ones for some spellings
+    keys = [("KB", "aaaaaaaa", "m/48h/1h/0h/2h", 0), ("KA", "bbbbbbbb", "m/45'/0", 3), ("KC", "cccccccc", "m", 10)]
+    n, texts = 0, {}
+    quick = getattr(ctx, "tier", "quick") != "thorough"
+    for size in (1, 2, 3):
+        for m_ in ((size,) if quick else range(1, size + 1)):
+            base = keys[:size]
+            for spell in itertools.product(("tpub", "Vpub") if quick and size == 3 else ("tpub", "Vpub", "Upub"), repeat=size):
+                for perm in itertools.permutations(range(size)):
+                    n += 1
+                    recs = [{"xfp": base[i][1], "path": base[i][2], "xpub_parent": spell[i] + base[i][0], "account_index": base[i][3]} for i in perm]
+                    me = Obj("descriptor", "P2WSHSortedMulti", {})
+                    try:
+                        Evaluator(ctx.repo, method_hooks=hooks, max_steps=2000000).call(spec, [], kwargs={"quorum_m": m_, "key_records": recs}, self_obj=me)
+                    except Raised as x:
+                        return [ctx.bad(spec, "%d-of-%d with xpub spellings %s supplied in order %s: the constructor raises %s" % (m_, size, list(spell), list(perm), x.name), fn, mod, key="text-of-set")]
+                    except Undecided as u:
+                        return [ctx.err(spec, "constructor not evaluable: %s" % u, fn, mod)]
+                    srt = sorted(base, key=lambda k_: "tpub" + k_[0])
+                    want = "wsh(sortedmulti(%d" % m_ + "".join(",[%s%s]tpub%s/%d/*" % (k_[1], k_[2][1:], k_[0], k_[3]) for k_ in srt) + "))"
+                    got = me.attrs.get("descriptor_text")
+                    if got != want:
+                        return [ctx.bad(spec, "%d-of-%d, the same keys spelled %s and supplied in order %s: the text is `%s`, not the key records ordered by the xpub shown in the text "
+                                              "(`%s`): text and checksum of one wallet depend on how it was handed over" % (m_, size, list(spell), list(perm), got, want), fn, mod, key="text-of-set")]
+                    if me.attrs.get("checksum") != _core_descsum(want):
+                        return [ctx.bad(spec, "the checksum attached to `%s` is %r, Bitcoin Core's is %s" % (want, me.attrs.get("checksum"), _core_descsum(want)), fn, mod, key="text-of-set")]
+    ctx.count("cells", n)
+    return [ctx.ok(spec, "%d (m, n, spelling, supply order) cells: one text per key set, ordered by the normalised xpub, with Bitcoin Core's checksum" % n, fn, mod, key="text-of-set")]
+
+
+def c16_17(ctx):
+    """single-character substitution, evaluated: every character of a 2-of-2 descriptor outside the key material (where Base58Check, C09,
+    detects it) is replaced by every other character of the descriptor character set (quick tier: the structural characters) and the altered
+    text, with the original checksum, is given to P2WSHSortedMulti.parse.  Either the parser refuses, or the text the checksum is computed
+    over is the altered text itself (then the checksum differs -- C16.1 decides the code equals Bitcoin Core's, whose distance covers one
+    substitution); a parse that silently maps the altered text back to another text whose checksum matches is an undetected alteration"""
+    from sa.cells import ClassRef, Evaluator, Obj, Raised, Undecided
+    spec = "descriptor:P2WSHSortedMulti.parse"
+    mod, fn = rl.get(ctx, spec)
+    hooks = _xpub_standins()
+    body = "wsh(sortedmulti(2,[c7d0648a/48h/1h/0h/2h]tpubKA1/10/*,[0f056943/45'/0]tpubKB2/0/*))"
+    chk = _core_descsum(body)
+    text = body + "#" + chk
+    seen_text = []
+
+    def checksum_standin(t):
+        seen_text.append(t)
+        return _core_descsum(t) or "!"
+    quick = getattr(ctx, "tier", "quick") != "thorough"
+    alphabet = "/*[]()',#h m019afx" if quick else CORE_INPUT_CHARSET
+    protected = set()
+    for token in ("tpubKA1", "tpubKB2"):
+        i = body.index(token)
+        protected |= set(range(i, i + len(token)))
+    protected.add(len(body))   # the `#` separator is neither body nor checksum: without it the text is a descriptor without a checksum followed by ignored text
+    n = 0
+    try:
+        # the unaltered text parses, and to itself
+        del seen_text[:]
+        Evaluator(ctx.repo, method_hooks=hooks, externals={"calc_core_checksum": checksum_standin}, max_steps=2000000).call(spec, [text], self_obj=ClassRef("descriptor", "P2WSHSortedMulti"))
+        if seen_text[-1:] != [body]:
+            return [ctx.bad(spec, "the unaltered descriptor `%s` is regenerated as `%s`" % (body, seen_text[-1:] and seen_text[-1]), fn, mod, key="substitution")]
+        for pos in range(len(text)):
+            if pos in protected:
+                continue
+            for ch in alphabet:
+                if ch == text[pos]:
+                    continue
+                n += 1
+                altered = text[:pos] + ch + text[pos + 1:]
+                del seen_text[:]
+                try:
+                    Evaluator(ctx.repo, method_hooks=hooks, externals={"calc_core_checksum": checksum_standin}, max_steps=2000000).call(
+                        spec, [altered], self_obj=ClassRef("descriptor", "P2WSHSortedMulti"))
+                except Raised:
+                    continue
+                where = "position %d (`%s` → `%s`, in `…%s…`)" % (pos, text[pos], ch, text[max(0, pos - 6):pos + 7])
+                return [ctx.bad(spec, "the descriptor altered at %s is accepted: the parser regenerates `%s` and compares its checksum, so the alteration is not detected" % (
+                    where, seen_text[-1] if seen_text else "nothing"), fn, mod, key="substitution")]
+    except Undecided as u:
+        return [ctx.err(spec, "descriptor parser not evaluable: %s" % u, fn, mod)]
+    ctx.count("cells", n)
+    return [ctx.ok(spec, "%d single-character substitutions (%d positions outside the key material × %s) are all refused" % (
+        n, len(text) - len(protected), "18 structural characters" if quick else "the whole descriptor character set"), fn, mod, key="substitution")]
+
+
+
 OBLIGATIONS = [
+    ("C16.17", "CELLS single substitution", c16_17),
+    ("C16.16", "CELLS text of a key set", c16_16),
     ("C16.15", "TABLE separator", c16_15),
     ("C16.14", "SHARED", c16_14),
     ("C16.13", "SET-ORDER", c16_13),
